@@ -9613,9 +9613,19 @@ func (l *Lowerer) lowerMemberForRef(mem *parser.MemberExpr, target *[]ir.Stateme
 		}), nil
 	}
 
-	// For multi-component swizzle (.xy, .xyz, etc.), fall through to regular lowering.
-	// This WILL re-lower the base expression (creating duplicate expressions), but
-	// multi-component swizzles are rare in store targets.
+	// Multi-component swizzle (.xy, .xyz, etc.) operates on a value: load the base that
+	// was lowered above. Re-lowering it through lowerMember would repeat its side
+	// effects (a call inside the base would be executed twice).
+	if vecOk {
+		loadedBase := l.applyLoadRule(base)
+		size, pattern, err := l.swizzlePattern(mem.Member, vec.Size)
+		if err != nil {
+			return 0, err
+		}
+		return l.addExpression(ir.Expression{
+			Kind: ir.ExprSwizzle{Size: size, Vector: loadedBase, Pattern: pattern},
+		}), nil
+	}
 	return l.lowerMember(mem, target)
 }
 
